@@ -85,6 +85,9 @@ impl Report {
 			self.broken.push(format!("{check_name}: {b}"));
 		}
 		for Failure { tape, violation } in outcome.failures {
+			if self.violations.iter().any(|(s, _)| *s == violation.sig) {
+				continue; // one replay per root cause
+			}
 			self.violations.push((
 				violation.sig.clone(),
 				json!({
